@@ -43,6 +43,7 @@ C13 == InvC13(mon)
 C14 == InvC14(mon)
 C15 == InvC15(mon)
 C19 == InvC19(mon)
+C20 == InvC20(mon)
 
 (* structural invariants of the model itself *)
 PermitConservation ==
